@@ -439,7 +439,9 @@ class REPEX_state:
 
     def initiate(self):
         """Initiate loop."""
-        if not self.cstep < self.tsteps:
+        if not self.cstep + self.workers - self.toinitiate < self.tsteps:
+            # no steps left for another worker (restart close to the end)
+            self.toinitiate = -1
             return False
 
         self.cworker = self.workers - self.toinitiate
